@@ -1,6 +1,7 @@
 import OtelVerif.Common.Line
 import OtelVerif.Model.C19Exp
 import OtelVerif.Model.C03Replay
+import OtelVerif.Model.C19SenderTrace
 /-! driver for C19, exporter clause (model `c19-exp`); imported by `Drivers/C19.lean` -/
 open OtelVerif OtelVerif.Line
 
@@ -19,6 +20,7 @@ structure XS where
   stored : List Nat := []
   impl : Option (Nat × Nat × Nat) := none
   gauges : List (Int × Int × Option Int × Int) := []
+  gaugeBounds : List (Int × Int) := []   -- persistent queue: (size gauge, ledger's outstanding sum): gauge ≤ bound (C19_gauge_persistent_le)
   gaugePos : List Nat := []          -- number of trace events before each gauge reading (same order as `gauges`)
   gaugeMissing : Bool := false
   skipped : Bool := false
@@ -34,20 +36,24 @@ structure XS where
   bytesSized : Bool := false
   direct : Bool := false   -- no sending queue, no batcher: no obsQueue, every Send passes obsReportSender once
   tevs : List OtelVerif.C03.Replay.TEv := []
+  sig : Option OtelVerif.C19.Sig := none   -- the exporter's signal: selects the rows of the REGENERATED instrument switches
+
+def sigOfName : String → Option OtelVerif.C19.Sig
+  | "traces" => some .traces | "metrics" => some .metrics | "logs" => some .logs | "profiles" => some .profiles | _ => none
 
 def expHandler : Handler XS where
   init := {}
   onOp := fun s toks =>
     match toks with
     | "cfg" :: rest =>
-      match kvNat rest "persistent", kvNat rest "queue", kvNat rest "wfr" with
-      | some p, some q, some w =>
-        ({ s with persistent := p == 1, batch := (kvNat rest "batch").getD 0, wrap := kvNat rest "wrap" == some 1,
+      match kvNat rest "persistent", kvNat rest "queue", kvNat rest "wfr", (kv rest "signal").bind sigOfName with
+      | some p, some q, some w, some sg =>
+        ({ s with persistent := p == 1, sig := some sg, batch := (kvNat rest "batch").getD 0, wrap := kvNat rest "wrap" == some 1,
                   direct := q == 0 && (kvNat rest "batch").getD 0 == 0,
                   bytesSized := kv rest "sizer" == some "bytes",
                   consumers := (kvNat rest "consumers").getD 1, retry := kvNat rest "retry" == some 1,
                   wfr := w == 1 || q == 0, itemsSized := kv rest "sizer" == some "items" && q == 1 }, [])
-      | _, _, _ => (s, ["obs bad-op"])
+      | _, _, _, _ => (s, ["obs bad-op"])
     | ["act", at_, "shutdown"] => if at_.toNat?.isSome then (s, []) else (s, ["obs bad-op"])
     | ["act", at_, "send", rid, n] =>
       if at_.toNat?.isSome && rid.toNat?.isSome && n.toNat?.isSome then (s, []) else (s, ["obs bad-op"])
@@ -96,7 +102,9 @@ def expHandler : Handler XS where
     | ["tr", "gauge", "missing"] => { s with gaugeMissing := true }
     | "tr" :: "gauge" :: rest =>
       match kvInt rest "size", kvInt rest "cap", kv rest "expsize", kvInt rest "expcap" with
-      | some sz, some cp, some es, some ec => { s with gauges := (sz, cp, es.toInt?, ec) :: s.gauges, gaugePos := s.tevs.length :: s.gaugePos }
+      | some sz, some cp, some es, some ec =>
+        { s with gauges := (sz, cp, es.toInt?, ec) :: s.gauges, gaugePos := s.tevs.length :: s.gaugePos,
+                 gaugeBounds := match (kv rest "maxsize").bind String.toInt? with | some m => (sz, m) :: s.gaugeBounds | none => s.gaugeBounds }
       | _, _, _, _ => { s with bad := some "gauge" }
     | "tr" :: "builderr" :: _ => { s with skipped := true }
     | "tr" :: _ => s
@@ -111,9 +119,10 @@ def expHandler : Handler XS where
     | some b => [s!"obs unparsable {b}", s!"prop exporter=FAIL sig=C19/exporter/unparsable {b}"]
     | none =>
       let t := s.evs.reverse
-      let p0 := OtelVerif.C19.predict t
-      let p := if s.direct then { p0 with enqFailed := 0 } else p0
-      let obs := s!"obs counters sent={p.sent} failed={p.failed} enq={p.enqFailed}"
+      -- the counters come from the per-call model of obsReportSender.endOp / obsQueue.Offer (Model/C19Sender.lean, instrument rows
+      -- regenerated from the source) run over the events of the trace; = `predict` (C19_sender_trace_eq_predict)
+      let c := OtelVerif.C19.Sender.run (s.sig.getD .profiles) (OtelVerif.C19.senderEvs t s.direct)
+      let obs := s!"obs counters sent={c.sent} failed={c.failed} enq={c.enq}"
       let attempted : Nat → Bool := fun x => (OtelVerif.C19.callsOf t).any (fun c => c.2.contains x)
       let given := (t.map (fun e => match e with | .acc is => is.length | .rej is => is.length | _ => 0)).sum
       let stuckLate := if s.persistent then 0 else ((s.lateAcc.flatMap id).filter (fun x => !attempted x)).length
@@ -143,7 +152,11 @@ def expHandler : Handler XS where
         | false, some g =>
           if g.2.1 != g.2.2.2 then s!"prop gauges=FAIL sig=C19/exporter/capacity-gauge-not-configured-capacity got={g.2.1} want={g.2.2.2}"
           else s!"prop gauges=FAIL sig=C19/exporter/size-gauge-not-queue-size got={g.1} want={g.2.2.1.getD 0}"
-        | false, none => "prop gauges=ok"
+        | false, none =>
+          -- persistent queue with requests outstanding: the size bookkeeping is lossy (reset when drained, clamp) but never OVER-reports
+          match s.gaugeBounds.find? (fun g => decide (g.1 > g.2) || decide (g.1 < 0)) with
+          | some g => s!"prop gauges=FAIL sig=C19/exporter/size-gauge-exceeds-outstanding-requests got={g.1} bound={g.2}"
+          | none => "prop gauges=ok"
       -- counters as functions of the LTS state reached by replaying the trace through `fire` (sentOf / failedOf / enqFailedWfrOf)
       let batching := s.batch != 0
       let pLts :=
